@@ -334,3 +334,20 @@ def c07_6(R):
         R.ok("is_remote_fin_or_later-table", "VirtualSocketState", "true for {LastAck, Closed}")
     else:
         R.fail(["VirtualSocketState::is_remote_fin_or_later", "table", str(sorted(tab[True]) if tab else None)], "is_remote_fin_or_later is no longer true exactly for LastAck/Closed", instance="is_remote_fin_or_later-table")
+
+
+@rule("C07.7", ["C07", "C04"], ["E4"], "there is something to acknowledge exactly when the receive cursor is ahead of the last ACK sent",
+      "VirtualSocket::ack_to_transmit is `last_consumed_remote_seq_nr > last_sent_ack_nr` in modular order (PartialOrd::gt on SeqNr): the delayed-ACK expiry sends only under it, and stays silent otherwise.")
+def c07_7(R):
+    b = R.body(VS + "::ack_to_transmit")
+    ok = False
+    for t in b.calls():
+        if call_matches(t, ("PartialOrd::gt", "PartialOrd::lt")) and len(t.args) == 2 and t.dest is not None and copy_root(b, Place({"l": 0, "p": []})) in (t.dest.local, 0):
+            a0, a1 = trace(b, t.args[0]).last_field, trace(b, t.args[1]).last_field
+            if call_matches(t, ("PartialOrd::lt",)):
+                a0, a1 = a1, a0
+            ok = (a0, a1) == ("VirtualSocket.last_consumed_remote_seq_nr", "VirtualSocket.last_sent_ack_nr") and "seq_nr::SeqNr" in (t.callee_full or t.resolved or "")
+    if ok:
+        R.ok("ack_to_transmit", b.name, "last_consumed_remote_seq_nr > last_sent_ack_nr (SeqNr order)")
+    else:
+        R.fail([b.name, "shape"], "ack_to_transmit is no longer the modular comparison last_consumed_remote_seq_nr > last_sent_ack_nr", where=b.where(), instance="ack_to_transmit")
